@@ -154,7 +154,7 @@ macro "rust_obs_simp" : tactic =>
       Option.isSome_none, Rust.eIsOk_ok, Rust.eIsOk_error, Rust.eget_ok, Rust.eget_error,
       Rust.checkedAdd_isSome, Rust.checkedAdd_oget, Rust.checkedSub_isSome, Rust.checkedSub_oget,
       Rust.checkedMul_isSome, Rust.checkedMul_oget,
-      Rust.add, Rust.sub, Rust.mul, Rust.rem, Rust.div, Rust.shl, Rust.shr, Rust.isPowerOfTwo, Rust.getBits, Rust.setBits,
+      Rust.add, Rust.sub, Rust.mul, Rust.rem, Rust.div, Rust.shl, Rust.shr, Rust.isPowerOfTwo, Rust.getBits, Rust.setBits, Rust.getBitsDyn, Rust.setBitsDyn,
       Rust.fieldMask, Rust.getBit, Rust.setBit,
       Rust.default_bitvec, Rust.default_bool, Rust.default_option, Rust.default_prod, Rust.default_unit,
       cond_true, cond_false] at *)
